@@ -3,6 +3,8 @@
 cd /verif
 for d in seeded/${1:-*}/; do
   [ -f $d/patch.diff ] || continue
-  id=$(basename $d); p=${id#r2-}; p=${p#r3-}; p=${p%%-*}
+  id=$(basename $d)
+  case $id in neg-*) continue;; esac   # property-preserving controls are run by neg_all.sh
+  p=${id#r[0-9]-}; p=${p%%-*}
   ./seed_check.sh $p $d
 done
